@@ -775,6 +775,75 @@ Lemma sv_len ctx a x s :
   ev ctx (EBuiltin a BiLen [x]) s =
   rbind (ev ctx x s) (fun v s1 => lift (aloc a) s1 (p_length v) (fun n => Done (vint n) s1)).
 Proof. reflexivity. Qed.
+Definition bin_strict (here : loc) (op : binop) (l r : expr) (va vb : value) (s2 : rstate) : result :=
+  match op with
+  | BEq =>
+      if both_kind (RKNum KInt) l r then
+        lift here s2 (as_int va) (fun x => lift here s2 (as_int vb) (fun y => Done (VBool (x =? y)%Z) s2))
+      else if both_kind RKString l r then
+        lift here s2 (as_str va) (fun x => lift here s2 (as_str vb) (fun y => Done (VBool (String.eqb x y)) s2))
+      else lift here s2 (p_equal va vb) (fun v => Done v s2)
+  | BNe => lift here s2 (p_equal va vb) (fun v => lift here s2 (as_bool v) (fun b => Done (VBool (negb b)) s2))
+  | BIn => lift here s2 (p_in va vb) (fun b => Done (VBool b) s2)
+  | BNotIn => lift here s2 (p_in va vb) (fun b => Done (VBool (negb b)) s2)
+  | BLt => lift here s2 (p_helper HLess va vb) (fun v => Done v s2)
+  | BGt => lift here s2 (p_helper HMore va vb) (fun v => Done v s2)
+  | BLe => lift here s2 (p_helper HLessOrEqual va vb) (fun v => Done v s2)
+  | BGe => lift here s2 (p_helper HMoreOrEqual va vb) (fun v => Done v s2)
+  | BAdd => lift here s2 (p_helper HAdd va vb) (fun v => Done v s2)
+  | BSub => lift here s2 (p_helper HSubtract va vb) (fun v => Done v s2)
+  | BMul => lift here s2 (p_helper HMultiply va vb) (fun v => Done v s2)
+  | BDiv => lift here s2 (p_helper HDivide va vb) (fun v => Done v s2)
+  | BMod => lift here s2 (p_helper HModulo va vb) (fun v => Done v s2)
+  | BPow => lift here s2 (to_float64 va) (fun x => lift here s2 (to_float64 vb) (fun y =>
+              Done (VNum (NFlt KF64 (f_pow fe x y))) s2))
+  | BContains => lift here s2 (as_str va) (fun x => lift here s2 (as_str vb) (fun y => Done (VBool (str_contains x y)) s2))
+  | BStartsWith => lift here s2 (as_str va) (fun x => lift here s2 (as_str vb) (fun y => Done (VBool (str_prefix y x)) s2))
+  | BEndsWith => lift here s2 (as_str va) (fun x => lift here s2 (as_str vb) (fun y => Done (VBool (str_suffix y x)) s2))
+  | BRange =>
+      lift here s2 (to_int va) (fun lo => lift here s2 (to_int vb) (fun hi =>
+      match range_size lo hi with
+      | None => Stop EBudget here s2
+      | Some n => alloc cfg here n s2 (fun s3 => Done (make_range lo hi) s3)
+      end))
+  | _ => Stop EOther here s2
+  end.
+
+Definition is_or (op : binop) : bool := match op with BOrWord | BOrOr => true | _ => false end.
+Definition is_and (op : binop) : bool := match op with BAndWord | BAndAnd => true | _ => false end.
+
+Lemma sv_binary ctx a op l r s :
+  ev ctx (EBinary a op l r) s =
+  if is_or op then
+    rbind (ev ctx l s) (fun va s1 => lift (aloc a) s1 (as_bool va) (fun b => if b then Done va s1 else ev ctx r s1))
+  else if is_and op then
+    rbind (ev ctx l s) (fun va s1 => lift (aloc a) s1 (as_bool va) (fun b => if b then ev ctx r s1 else Done va s1))
+  else
+    rbind (ev ctx l s) (fun va s1 => rbind (ev ctx r s1) (fun vb s2 => bin_strict (aloc a) op l r va vb s2)).
+Proof. destruct op; reflexivity. Qed.
+Definition is_loop_builtin (b : builtin) : bool :=
+  match b with BiAll | BiNone | BiAny | BiOne | BiCount | BiFilter | BiMap => true | _ => false end.
+
+Definition builtin_body (ctx : list (value * Z)) (here : loc) (b : builtin) (c : expr) (v : value) (n : Z) (s1 : rstate) : result :=
+  let body := fun i s' => ev ((v, i) :: ctx) c s' in
+  match b with
+  | BiAll => all_loop body here (Z.to_nat n) 0 s1
+  | BiNone => none_loop body here (Z.to_nat n) 0 s1
+  | BiAny => any_loop body here (Z.to_nat n) 0 s1
+  | BiOne => count_loop body here (Z.to_nat n) 0 0 s1
+               (fun cnt s2 => lift here s2 (p_equal (vint cnt) (vint 1)) (fun r => Done r s2))
+  | BiCount => count_loop body here (Z.to_nat n) 0 0 s1 (fun cnt s2 => Done (vint cnt) s2)
+  | BiFilter => filter_loop body here (fun i => p_fetch v (vint i) false) (Z.to_nat n) 0 [] s1
+                  (fun xs s2 => alloc cfg here (Z.of_nat (List.length xs)) s2 (fun s3 => Done (VArr TIface xs) s3))
+  | BiMap => map_loop body (Z.to_nat n) 0 [] s1
+               (fun xs s2 => alloc cfg here n s2 (fun s3 => Done (VArr TIface xs) s3))
+  | _ => Stop EOther here s1
+  end.
+
+Lemma sv_loop ctx a b x cl s : is_loop_builtin b = true ->
+  ev ctx (EBuiltin a b [x; cl]) s =
+  rbind (ev ctx x s) (fun v s1 => lift (aloc a) s1 (p_length v) (fun n => builtin_body ctx (aloc a) b cl v n s1)).
+Proof. destruct b; try discriminate; reflexivity. Qed.
 End Ev.
 
 (* ================================================================== Part 5 *)
@@ -918,4 +987,556 @@ Proof.
     destruct (inv_num _ _ _ _ Hv) as (n & -> & Kn & Sn). cbn.
     replace k with (num_kind (go_neg n)) by (destruct n; exact Kn).
     apply ty_num. destruct n; exact Sn.
+Qed.
+
+(* ---- binary ---- *)
+Lemma arith_ok h va vb kl kr t l0 s0 : is_cmp h = false -> has_case h kl kr = true ->
+  has_ty va (TNum kl) -> has_ty vb (TNum kr) -> comb (TNum kl) (TNum kr) = inl t ->
+  res_ok t (lift l0 s0 (p_helper h va vb) (fun v => Done v s0)).
+Proof.
+  intros Hh Hc Ha Hb Ec.
+  destruct (inv_num _ _ _ _ Ha) as (x & -> & Kx & Sx). destruct (inv_num _ _ _ _ Hb) as (y & -> & Ky & Sy).
+  subst kl kr. unfold comb in Ec. rewrite combined_ty_num in Ec.
+  pose proof (p_helper_ar_num h x y Hh Hc Sx Sy) as P.
+  destruct (p_helper h (VNum x) (VNum y)) as [v|e]; cbn [lift Sound.res_ok]; [|exact P].
+  destruct P as (n & -> & Kn & Sn). rewrite Kn in Ec. cbn in Ec. inversion Ec; subst t. apply ty_num. exact Sn.
+Qed.
+
+Lemma cmp_ok h va vb tl tr l0 s0 : is_cmp h = true ->
+  (s_num tl && s_num tr) || (s_str tl && s_str tr) = true -> has_ty va tl -> has_ty vb tr ->
+  res_ok TBool (lift l0 s0 (p_helper h va vb) (fun v => Done v s0)).
+Proof.
+  intros Hh Hs Ha Hb. apply orb_prop in Hs. destruct Hs as [Hs|Hs]; apply andb_prop in Hs; destruct Hs as [H1 H2].
+  - destruct (s_num_inv _ H1) as [kl ->]. destruct (s_num_inv _ H2) as [kr ->].
+    destruct (inv_num _ _ _ _ Ha) as (x & -> & Kx & Sx). destruct (inv_num _ _ _ _ Hb) as (y & -> & Ky & Sy).
+    pose proof (p_helper_cmp_num h x y Hh Sx Sy) as P.
+    destruct (p_helper h (VNum x) (VNum y)) as [v|e]; cbn [lift Sound.res_ok]; [|exact P].
+    destruct P as [b ->]. apply ty_bool.
+  - apply s_str_inv in H1, H2. subst tl tr.
+    destruct (inv_str _ _ _ Ha) as [x ->]. destruct (inv_str _ _ _ Hb) as [y ->].
+    destruct (p_helper_cmp_str h x y Hh) as [b ->]. cbn. apply ty_bool.
+Qed.
+
+Lemma int_kint n : num_kind n = KInt -> num_shape n = true -> exists z, n = NInt KInt z.
+Proof. destruct n as [k z|k f]; cbn; intros -> H; [eauto|discriminate]. Qed.
+
+Lemma eq_ok l' r' tl tr va vb l0 s0 :
+  kind_of l' = kind_of_ty tl -> kind_of r' = kind_of_ty tr -> s_pair tl tr = true ->
+  has_ty va tl -> has_ty vb tr -> res_ok TBool (bin_strict fe cfg l0 BEq l' r' va vb s0).
+Proof.
+  intros Kl Kr Hp Ha Hb. cbn [bin_strict]. rewrite !(both_kind_settled _ _ _ _ _ Kl Kr).
+  assert (G : res_ok TBool (lift l0 s0 (p_equal va vb) (fun v => Done v s0))).
+  { pose proof (equal_pair te ftab va vb tl tr Hp Ha Hb) as P. destruct (p_equal va vb) as [v|e]; cbn; [|exact P].
+    destruct P as [b ->]. apply ty_bool. }
+  unfold s_pair in Hp.
+  destruct tl; cbn in Hp; try discriminate; destruct tr; cbn in Hp; try discriminate; cbn [kind_of_ty rkind_eqb andb].
+  - exact G.
+  - destruct (kind_eqb k KInt && kind_eqb k0 KInt) eqn:E; [|exact G].
+    apply andb_prop in E. destruct E as [E1 E2]. apply kind_eqb_eq in E1, E2. subst.
+    destruct (inv_num _ _ _ _ Ha) as (x & -> & Kx & Sx). destruct (inv_num _ _ _ _ Hb) as (y & -> & Ky & Sy).
+    destruct (int_kint _ Kx Sx) as [zx ->]. destruct (int_kint _ Ky Sy) as [zy ->]. cbn. apply ty_bool.
+  - destruct (inv_str _ _ _ Ha) as [x ->]. destruct (inv_str _ _ _ Hb) as [y ->]. cbn. apply ty_bool.
+Qed.
+
+Lemma str2_ok (f : string -> string -> bool) va vb l0 s0 : has_ty va TString -> has_ty vb TString ->
+  res_ok TBool (lift l0 s0 (as_str va) (fun x => lift l0 s0 (as_str vb) (fun y => Done (VBool (f x y)) s0))).
+Proof.
+  intros Ha Hb. destruct (inv_str _ _ _ Ha) as [x ->]. destruct (inv_str _ _ _ Hb) as [y ->]. cbn. apply ty_bool.
+Qed.
+
+Ltac rule_true E :=
+  match type of E with
+  | (if ?b then _ else _) = _ => destruct b; [|try discriminate]
+  end.
+
+Ltac rule_any E :=
+  match type of E with
+  | (if ?b then _ else _) = _ => destruct b; try discriminate E
+  end.
+
+Lemma sound_binary a op l r : sound_at l -> sound_at r -> sound_at (EBinary a op l r).
+Proof.
+  intros IHl IHr cols t e' H Hs ctx Hc s. cbn [visit] in H.
+  destruct (visit c cols l None) as [[tl l'] st1] eqn:El.
+  destruct (visit c cols r st1) as [[tr r'] st2] eqn:Er.
+  destruct (emit (loc_of (EBinary a op l r)) (binary_node_rule c op tl tr) st2) as [t1 st3] eqn:Ee.
+  inversion H; subst. destruct (emit_none _ _ _ _ Ee) as [-> Eru].
+  pose proof (visit_none _ _ _ _ _ _ Er). subst st1.
+  cbn [scope] in Hs. unfold tyof in Hs. rewrite El, Er in Hs. cbn [fst] in Hs.
+  apply andb_prop in Hs. destruct Hs as [Hs Hso]. apply andb_prop in Hs. destruct Hs as [Hs Hno].
+  apply andb_prop in Hs. destruct Hs as [Hsl Hsr].
+  unfold binary_node_rule, overload in Eru. unfold no_overload in Hno.
+  destruct (Types.assoc (binop_str op) (cc_ops c)); [discriminate|].
+  pose proof (visit_kind _ _ _ _ _ El) as Kl. pose proof (visit_kind _ _ _ _ _ Er) as Kr.
+  pose proof (fun s => IHl _ _ _ El Hsl ctx Hc s) as Rl. pose proof (fun s => IHr _ _ _ Er Hsr ctx Hc s) as Rr.
+  cbn [settle set_ann]. rewrite sv_binary.
+  destruct op; cbn [is_or is_and sc_binary binary_rule] in *; try discriminate.
+  (* or / and *)
+  1-4: apply andb_prop in Hso; destruct Hso as [H1 H2]; apply s_bool_inv in H1, H2; subst tl tr;
+       cbn in Eru; inversion Eru; subst t;
+       (eapply res_bind; [apply Rl|]); intros va s1 Ha; destruct (inv_bool _ _ _ Ha) as [b ->]; cbn [as_bool lift];
+       destruct b; first [apply ty_bool | apply Rr].
+  (* the strict operators *)
+  all: (eapply res_bind; [apply Rl|]); intros va s1 Ha; (eapply res_bind; [apply Rr|]); intros vb s2 Hb.
+  - (* == *) rule_true Eru. inversion Eru; subst t. eapply eq_ok; eauto.
+  - (* != *) rule_true Eru. inversion Eru; subst t. cbn [bin_strict].
+    pose proof (equal_pair te ftab va vb tl tr Hso Ha Hb) as P. destruct (p_equal va vb) as [v|e]; cbn; [|exact P].
+    destruct P as [b ->]. cbn. apply ty_bool.
+  - (* < *) rule_true Eru. inversion Eru; subst t. cbn [bin_strict]. eapply cmp_ok; eauto.
+  - rule_true Eru. inversion Eru; subst t. cbn [bin_strict]. eapply cmp_ok; eauto.
+  - rule_true Eru. inversion Eru; subst t. cbn [bin_strict]. eapply cmp_ok; eauto.
+  - rule_true Eru. inversion Eru; subst t. cbn [bin_strict]. eapply cmp_ok; eauto.
+  - (* not in *) rule_true Eru. inversion Eru; subst t. cbn [bin_strict].
+    pose proof (in_ok te ftab va vb tl tr Hso Ha Hb) as P. destruct (p_in va vb) as [b|e]; cbn; [apply ty_bool|exact P].
+  - (* in *) rule_true Eru. inversion Eru; subst t. cbn [bin_strict].
+    pose proof (in_ok te ftab va vb tl tr Hso Ha Hb) as P. destruct (p_in va vb) as [b|e]; cbn; [apply ty_bool|exact P].
+  - (* contains *) apply andb_prop in Hso. destruct Hso as [H1 H2]. apply s_str_inv in H1, H2. subst.
+    cbn in Eru. inversion Eru; subst t. cbn [bin_strict]. apply str2_ok; assumption.
+  - apply andb_prop in Hso. destruct Hso as [H1 H2]. apply s_str_inv in H1, H2. subst.
+    cbn in Eru. inversion Eru; subst t. cbn [bin_strict].
+    apply (str2_ok (fun x y => str_prefix y x)); assumption.
+  - apply andb_prop in Hso. destruct Hso as [H1 H2]. apply s_str_inv in H1, H2. subst.
+    cbn in Eru. inversion Eru; subst t. cbn [bin_strict].
+    apply (str2_ok (fun x y => str_suffix y x)); assumption.
+  - (* .. *) apply andb_prop in Hso. destruct Hso as [H1 H2].
+    destruct (s_int_inv _ H1) as (kl & -> & Fl). destruct (s_int_inv _ H2) as (kr & -> & Fr).
+    rewrite !is_integer_num, Fl, Fr in Eru. cbn in Eru. inversion Eru; subst t. cbn [bin_strict].
+    destruct (inv_num _ _ _ _ Ha) as (x & -> & _ & _). destruct (inv_num _ _ _ _ Hb) as (y & -> & _ & _).
+    eapply res_lift; [apply to_int_ok|]. intros lo _. eapply res_lift; [apply to_int_ok|]. intros hi _.
+    destruct (range_size lo hi); [|reflexivity]. apply res_alloc. intros s'. cbn. apply make_range_ok.
+  - (* + *) apply orb_prop in Hso. destruct Hso as [Hso|Hso]; apply andb_prop in Hso; destruct Hso as [H1 H2].
+    + destruct (s_num_inv _ H1) as [kl ->]. destruct (s_num_inv _ H2) as [kr ->].
+      rewrite !is_number_num in Eru. cbn [andb] in Eru. cbn [bin_strict]. eapply arith_ok; eauto; reflexivity.
+    + apply s_str_inv in H1, H2. subst. cbn in Eru. inversion Eru; subst t. cbn [bin_strict].
+      destruct (inv_str _ _ _ Ha) as [x ->]. destruct (inv_str _ _ _ Hb) as [y ->]. cbn. apply ty_str.
+  - (* - *) apply andb_prop in Hso. destruct Hso as [H1 H2].
+    destruct (s_num_inv _ H1) as [kl ->]. destruct (s_num_inv _ H2) as [kr ->].
+    rewrite !is_number_num in Eru. cbn [andb] in Eru. cbn [bin_strict]. eapply arith_ok; eauto; reflexivity.
+  - (* * *) apply andb_prop in Hso. destruct Hso as [H1 H2].
+    destruct (s_num_inv _ H1) as [kl ->]. destruct (s_num_inv _ H2) as [kr ->].
+    rewrite !is_number_num in Eru. cbn [andb] in Eru. cbn [bin_strict]. eapply arith_ok; eauto; reflexivity.
+  - (* / *) apply andb_prop in Hso. destruct Hso as [H1 H2].
+    destruct (s_num_inv _ H1) as [kl ->]. destruct (s_num_inv _ H2) as [kr ->].
+    rewrite !is_number_num in Eru. cbn [andb] in Eru. cbn [bin_strict]. eapply arith_ok; eauto; reflexivity.
+  - (* % *) apply andb_prop in Hso. destruct Hso as [H1 H2].
+    destruct (s_int_inv _ H1) as (kl & -> & Fl). destruct (s_int_inv _ H2) as (kr & -> & Fr).
+    rewrite !is_integer_num, Fl, Fr in Eru. cbn [andb negb] in Eru. cbn [bin_strict]. eapply arith_ok; eauto.
+    cbn. rewrite Fl, Fr. reflexivity.
+  - (* ** *) apply andb_prop in Hso. destruct Hso as [H1 H2].
+    destruct (s_num_inv _ H1) as [kl ->]. destruct (s_num_inv _ H2) as [kr ->].
+    rewrite !is_number_num in Eru. cbn in Eru. inversion Eru; subst t. cbn [bin_strict].
+    destruct (inv_num _ _ _ _ Ha) as (x & -> & _ & _). destruct (inv_num _ _ _ _ Hb) as (y & -> & _ & _).
+    eapply res_lift; [apply to_float64_ok|]. intros fx _. eapply res_lift; [apply to_float64_ok|]. intros fy _.
+    cbn. apply (ty_num _ _ (NFlt KF64 _)). reflexivity.
+Qed.
+
+(* ---- matches ---- *)
+Lemma sound_matches a re l r : sound_at l -> sound_at r -> sound_at (EMatches a re l r).
+Proof.
+  intros IHl IHr cols t e' H Hs ctx Hc s. cbn [visit] in H.
+  destruct (visit c cols l None) as [[tl l'] st1] eqn:El.
+  destruct (visit c cols r st1) as [[tr r'] st2] eqn:Er.
+  destruct (emit (loc_of (EMatches a re l r)) (matches_rule tl tr) st2) as [t1 st3] eqn:Ee.
+  inversion H; subst. destruct (emit_none _ _ _ _ Ee) as [-> Eru].
+  pose proof (visit_none _ _ _ _ _ _ Er). subst st1.
+  cbn [scope] in Hs. unfold tyof in Hs. rewrite El, Er in Hs. cbn [fst] in Hs.
+  apply andb_prop in Hs. destruct Hs as [Hs H2]. apply andb_prop in Hs. destruct Hs as [Hs H1].
+  apply andb_prop in Hs. destruct Hs as [Hsl Hsr]. apply s_str_inv in H1, H2. subst tl tr.
+  cbn in Eru. inversion Eru; subst t.
+  pose proof (fun s => IHl _ _ _ El Hsl ctx Hc s) as Rl. pose proof (fun s => IHr _ _ _ Er Hsr ctx Hc s) as Rr.
+  cbn [settle set_ann]. rewrite sv_matches. destruct re as [p|].
+  - eapply res_bind; [apply Rl|]. intros va s1 Ha. destruct (inv_str _ _ _ Ha) as [x ->]. cbn [as_str lift].
+    destruct (re_match fe p x); [apply ty_bool|reflexivity].
+  - eapply res_bind; [apply Rl|]. intros va s1 Ha. eapply res_bind; [apply Rr|]. intros vb s2 Hb.
+    destruct (inv_str _ _ _ Ha) as [x ->]. destruct (inv_str _ _ _ Hb) as [p ->]. cbn [as_str lift].
+    destruct (re_match fe p x); [apply ty_bool|reflexivity].
+Qed.
+
+(* ---- conditional ---- *)
+Lemma cond_rule_same u : cond_rule u u = u.
+Proof.
+  unfold cond_rule. destruct (is_nil_ty u) eqn:E; cbn.
+  - destruct u; try discriminate. reflexivity.
+  - rewrite assignable_self. reflexivity.
+Qed.
+
+Lemma sound_cond a cnd x y : sound_at cnd -> sound_at x -> sound_at y -> sound_at (ECond a cnd x y).
+Proof.
+  intros IHc IHx IHy cols t e' H Hs ctx Hc s. cbn [visit] in H.
+  destruct (visit c cols cnd None) as [[tc cnd'] st1] eqn:Ec.
+  cbn [scope] in Hs. unfold tyof in Hs. rewrite Ec in Hs. cbn [fst] in Hs.
+  apply andb_prop in Hs. destruct Hs as [Hs Hsc]. apply andb_prop in Hs. destruct Hs as [Hs Hb].
+  apply andb_prop in Hs. destruct Hs as [Hs Hsy]. apply andb_prop in Hs. destruct Hs as [Hscn Hsx].
+  apply s_bool_inv in Hb. subst tc. cbn [is_bool dk dereference kind_of_ty negb] in H.
+  destruct (visit c cols x st1) as [[t1 x'] st2] eqn:Ex.
+  destruct (visit c cols y st2) as [[t2 y'] st3] eqn:Ey.
+  inversion H; subst. pose proof (visit_none _ _ _ _ _ _ Ey). subst st2.
+  pose proof (visit_none _ _ _ _ _ _ Ex). subst st1.
+  rewrite Ex, Ey in Hsc. cbn [fst] in Hsc.
+  pose proof (fun s => IHc _ _ _ Ec Hscn ctx Hc s) as Rc.
+  pose proof (fun s => IHx _ _ _ Ex Hsx ctx Hc s) as Rx. pose proof (fun s => IHy _ _ _ Ey Hsy ctx Hc s) as Ry.
+  cbn [settle set_ann]. rewrite sv_cond. eapply res_bind; [apply Rc|]. intros vc s1 Hvc.
+  destruct (inv_bool _ _ _ Hvc) as [b ->]. cbn [as_bool lift].
+  unfold sc_cond in Hsc. apply orb_prop in Hsc. destruct Hsc as [Hsc|Hsc].
+  - apply ty_eqb_eq in Hsc. subst t2. rewrite cond_rule_same. destruct b; [apply Rx|apply Ry].
+  - apply andb_prop in Hsc. destruct Hsc as [Hsc N3]. apply andb_prop in Hsc. destruct Hsc as [N1 N2].
+    apply negb_true_iff in N1, N2, N3. unfold cond_rule. rewrite N1, N2, N3. cbn.
+    destruct b; [specialize (Rx s1); destruct (ev ctx x' s1)|specialize (Ry s1); destruct (ev ctx y' s1)]; cbn in *;
+      auto; apply has_ty_iface; eapply has_ty_wf; eassumption.
+Qed.
+
+(* ---- member access ---- *)
+Lemma member_resolves sn' name ft :
+  sc_property te (TStruct sn') name = true -> field_type te (fuel0 te) (TStruct sn') name = LFound ft ->
+  exists pth, go_resolve_field te sn' name = RField pth ft true.
+Proof.
+  cbn [sc_property]. intros Hs Hft.
+  apply andb_prop in Hs. destruct Hs as [Hs _]. apply andb_prop in Hs. destruct Hs as [Hs Hu].
+  apply andb_prop in Hs. destruct Hs as [Hf Hm]. apply negb_true_iff in Hu, Hm.
+  destruct (field_type_sound te Hwf _ (TStruct sn') sn' name ft Hf eq_refl Hft Hm) as (d & p & f & R & -> & Hd).
+  exists p. unfold unexported_member in Hu. unfold go_resolve_field in *.
+  rewrite (search_found te sn' name d p f R) in * by (unfold fuel0 in Hd; lia).
+  destruct (fd_exp f); [reflexivity|discriminate].
+Qed.
+
+Lemma sound_property a x name ns : sound_at x -> sound_at (EProperty a x name ns).
+Proof.
+  intros IH cols t e' H Hs ctx Hc s. cbn [visit] in H.
+  destruct (visit c cols x None) as [[tx x'] st1] eqn:Ex.
+  destruct (emit (loc_of (EProperty a x name ns)) (property_rule c tx name ns) st1) as [t1 st2] eqn:Ee.
+  inversion H; subst. destruct (emit_none _ _ _ _ Ee) as [-> Eru].
+  cbn [scope] in Hs. unfold tyof in Hs. rewrite Ex in Hs. cbn [fst] in Hs.
+  apply andb_prop in Hs. destruct Hs as [Hsx Hsp].
+  cbn [settle set_ann]. rewrite sv_property. eapply res_bind; [exact (IH _ _ _ Ex Hsx ctx Hc s)|].
+  intros v s1 Hv. unfold property_rule, Checker.te, cfuel, Checker.te in Eru.
+  destruct tx; try discriminate.
+  - (* map[string]T *)
+    cbn [sc_property] in Hsp. apply andb_prop in Hsp. destruct Hsp as [Hk Hz]. apply s_str_inv in Hk. subst tx1.
+    cbn in Eru. inversion Eru; subst t.
+    pose proof (fetch_map te ftab v (VStr name) TString tx2 ns Hv (ty_str _ _ name) eq_refl Hz) as P.
+    destruct (p_fetch v (VStr name) ns); cbn; exact P.
+  - (* struct *)
+    destruct (field_type te (fuel0 te) (TStruct name0) name) as [ft| |] eqn:Hft;
+      try (cbn [sc_property] in Hsp; rewrite Hft in Hsp; rewrite !andb_false_r in Hsp; discriminate).
+    inversion Eru; subst t. destruct (member_resolves _ _ _ Hsp Hft) as [pth R].
+    destruct (inv_struct _ _ _ _ Hv) as [fields ->].
+    destruct (fetch_member te ftab name0 false fields name pth ft ns (has_ty_wf _ _ _ _ Hv) R) as (r & Ef & Hr).
+    rewrite Ef. cbn. exact Hr.
+Qed.
+
+Lemma sound_index a x i : sound_at x -> sound_at i -> sound_at (EIndex a x i).
+Proof.
+  intros IHx IHi cols t e' H Hs ctx Hc s. cbn [visit] in H.
+  destruct (visit c cols x None) as [[tx x'] st1] eqn:Ex.
+  destruct (visit c cols i st1) as [[ti i'] st2] eqn:Ei.
+  destruct (emit (loc_of (EIndex a x i)) (index_rule tx ti) st2) as [t1 st3] eqn:Ee.
+  inversion H; subst. destruct (emit_none _ _ _ _ Ee) as [-> Eru].
+  pose proof (visit_none _ _ _ _ _ _ Ei). subst st1.
+  cbn [scope] in Hs. unfold tyof in Hs. rewrite Ex, Ei in Hs. cbn [fst] in Hs.
+  apply andb_prop in Hs. destruct Hs as [Hs Hsi]. apply andb_prop in Hs. destruct Hs as [Hsx Hsy].
+  pose proof (fun s => IHx _ _ _ Ex Hsx ctx Hc s) as Rx. pose proof (fun s => IHi _ _ _ Ei Hsy ctx Hc s) as Ri.
+  cbn [settle set_ann]. rewrite sv_index. eapply res_bind; [apply Rx|]. intros v s1 Hv.
+  eapply res_bind; [apply Ri|]. intros vi s2 Hvi.
+  unfold index_rule in Eru. destruct tx; try discriminate; cbn [sc_index index_type dereference under] in *.
+  - destruct (s_int_inv _ Hsi) as (k & -> & Fk). rule_any Eru. inversion Eru; subst t.
+    pose proof (fetch_slice te ftab v vi tx k false Hv Hvi) as P. destruct (p_fetch v vi false); cbn; exact P.
+  - apply andb_prop in Hsi. destruct Hsi as [Hsi Hz]. apply andb_prop in Hsi. destruct Hsi as [Hk He].
+    apply ty_eqb_eq in He. subst ti. rule_any Eru. inversion Eru; subst t.
+    pose proof (fetch_map te ftab v vi tx1 tx2 false Hv Hvi Hk Hz) as P. destruct (p_fetch v vi false); cbn; exact P.
+Qed.
+
+(* ---- slice ---- *)
+Ltac kill_fail H :=
+  match type of H with
+  | context [fail_at ?l ?k ?st] =>
+      let F := fresh "F" in
+      destruct (fail_at l k st) as [? ?] eqn:F; inversion H; subst; exfalso; eapply fail_at_none; exact F
+  end.
+
+Definition opt_vis (cols : list ty) (o o' : option expr) : Prop :=
+  match o, o' with
+  | Some f, Some f' => exists k, visit c cols f None = (TNum k, f', None) /\ scope c cols f = true
+  | None, None => True
+  | _, _ => False
+  end.
+
+Lemma idx_scope cols f tf f' st :
+  visit c cols f None = (tf, f', st) -> scope c cols f && s_int (tyof c cols f) = true ->
+  scope c cols f = true /\ exists k, tf = TNum k /\ is_float k = false.
+Proof.
+  intros E H. unfold tyof in H. rewrite E in H. cbn [fst] in H. apply andb_prop in H. destruct H as [H1 H2].
+  split; [exact H1|]. apply s_int_inv. exact H2.
+Qed.
+
+Lemma slice_inv cols a x from to t e' :
+  visit c cols (ESlice a x from to) None = (t, e', None) -> scope c cols (ESlice a x from to) = true ->
+  exists x' from' to', visit c cols x None = (t, x', None) /\
+    e' = ESlice (mkAnn (aloc a) (kind_of_ty t)) x' from' to' /\
+    scope c cols x = true /\ sc_sliceable t = true /\ opt_vis cols from from' /\ opt_vis cols to to'.
+Proof.
+  intros H Hs. cbn [visit] in H. destruct (visit c cols x None) as [[tx x'] st1] eqn:Ex.
+  cbn [scope] in Hs. unfold tyof at 1 in Hs. rewrite Ex in Hs. cbn [fst] in Hs.
+  apply andb_prop in Hs. destruct Hs as [Hs Hu]. apply andb_prop in Hs. destruct Hs as [Hs Hf].
+  apply andb_prop in Hs. destruct Hs as [Hsx Hsl].
+  assert (sliceable tx = true) as SL by (destruct tx; try discriminate; reflexivity). rewrite SL in H.
+  destruct from as [f|], to as [u|].
+  - destruct (visit c cols f st1) as [[tf f'] st2] eqn:Ef. destruct (negb (is_integer tf)) eqn:Nf; [kill_fail H|].
+    destruct (visit c cols u st2) as [[tu u'] st3] eqn:Eu. destruct (negb (is_integer tu)) eqn:Nu; [kill_fail H|].
+    inversion H; subst. pose proof (visit_none _ _ _ _ _ _ Eu). subst st2.
+    pose proof (visit_none _ _ _ _ _ _ Ef). subst st1.
+    destruct (idx_scope _ _ _ _ _ Ef Hf) as [Sf (kf & -> & _)]. destruct (idx_scope _ _ _ _ _ Eu Hu) as [Su (ku & -> & _)].
+    exists x', (Some f'), (Some u'). repeat split; auto; cbn; eauto.
+  - destruct (visit c cols f st1) as [[tf f'] st2] eqn:Ef. destruct (negb (is_integer tf)) eqn:Nf; [kill_fail H|].
+    inversion H; subst. pose proof (visit_none _ _ _ _ _ _ Ef). subst st1.
+    destruct (idx_scope _ _ _ _ _ Ef Hf) as [Sf (kf & -> & _)].
+    exists x', (Some f'), None. repeat split; auto; cbn; eauto.
+  - destruct (visit c cols u st1) as [[tu u'] st3] eqn:Eu. destruct (negb (is_integer tu)) eqn:Nu; [kill_fail H|].
+    inversion H; subst. pose proof (visit_none _ _ _ _ _ _ Eu). subst st1.
+    destruct (idx_scope _ _ _ _ _ Eu Hu) as [Su (ku & -> & _)].
+    exists x', None, (Some u'). repeat split; auto; cbn; eauto.
+  - inversion H; subst. exists x', None, None. repeat split; auto.
+Qed.
+
+Lemma sound_slice a x from to :
+  sound_at x -> (forall f, from = Some f -> sound_at f) -> (forall u, to = Some u -> sound_at u) ->
+  sound_at (ESlice a x from to).
+Proof.
+  intros IHx IHf IHu cols t e' H Hs ctx Hc s.
+  destruct (slice_inv _ _ _ _ _ _ _ H Hs) as (x' & from' & to' & Ex & -> & Hsx & Hsl & Of & Ou).
+  rewrite sv_slice. eapply res_bind; [exact (IHx _ _ _ Ex Hsx ctx Hc s)|]. intros v s1 Hv.
+  assert (Rto : exists k, res_ok (TNum k)
+            (match to' with Some u => ev ctx u s1 | None => lift (aloc a) s1 (p_length v) (fun n => Done (vint n) s1) end)).
+  { destruct to as [u|], to' as [u'|]; cbn in Ou; try contradiction.
+    - destruct Ou as (k & Eu & Su). exists k. exact (IHu u eq_refl _ _ _ Eu Su ctx Hc s1).
+    - exists KInt. destruct (length_ok te ftab v t) as [n ->]; auto.
+      + destruct t; try discriminate; reflexivity.
+      + cbn. apply ty_vint. }
+  destruct Rto as [ku Rto]. eapply res_bind; [exact Rto|]. intros vto s2 Hto.
+  assert (Rfrom : exists k, res_ok (TNum k) (match from' with Some f => ev ctx f s2 | None => Done (vint 0) s2 end)).
+  { destruct from as [f|], from' as [f'|]; cbn in Of; try contradiction.
+    - destruct Of as (k & Ef & Sf). exists k. exact (IHf f eq_refl _ _ _ Ef Sf ctx Hc s2).
+    - exists KInt. cbn. apply ty_vint. }
+  destruct Rfrom as [kf Rfrom]. eapply res_bind; [exact Rfrom|]. intros vfrom s3 Hfrom.
+  pose proof (slice_ok te ftab v vfrom vto t kf ku Hsl Hv Hfrom Hto) as P.
+  destruct (p_slice v vfrom vto); cbn; exact P.
+Qed.
+
+(* ---- len ---- *)
+Lemma sound_len a x : sound_at x -> sound_at (EBuiltin a BiLen [x]).
+Proof.
+  intros IH cols t e' H Hs ctx Hc s. cbn [visit] in H.
+  destruct (visit c cols x None) as [[tx x'] st1] eqn:Ex.
+  destruct (emit (loc_of (EBuiltin a BiLen [x])) (len_rule tx) st1) as [t1 st2] eqn:Ee.
+  inversion H; subst. destruct (emit_none _ _ _ _ Ee) as [-> Eru].
+  cbn [scope] in Hs. unfold tyof in Hs. rewrite Ex in Hs. cbn [fst] in Hs.
+  apply andb_prop in Hs. destruct Hs as [Hsx Hsl].
+  unfold len_rule in Eru. rule_any Eru. inversion Eru; subst t.
+  cbn [settle set_ann]. rewrite sv_len. eapply res_bind; [exact (IH _ _ _ Ex Hsx ctx Hc s)|]. intros v s1 Hv.
+  destruct (length_ok te ftab v tx Hsl Hv) as [n ->]. cbn. apply ty_vint.
+Qed.
+
+(* ---- # ---- *)
+Lemma sound_pointer a : sound_at (EPointer a).
+Proof.
+  intros cols t e' H Hs ctx Hc s. cbn [visit] in H.
+  destruct (emit (loc_of (EPointer a)) (pointer_rule cols) None) as [t1 st1] eqn:Ee.
+  inversion H; subst. destruct (emit_none _ _ _ _ Ee) as [_ Eru].
+  cbn [scope] in Hs. destruct cols as [|c0 cols]; [discriminate|]. destruct c0; try discriminate.
+  cbn in Eru. inversion Eru; subst t.
+  inversion Hc as [|[arr i] ? ctx' ? [_ Harr] Hrest]; subst. cbn [fst] in Harr.
+  cbn [settle set_ann eval].
+  pose proof (fetch_slice te ftab arr (vint i) c0 KInt false Harr (ty_vint _ _ i)) as P.
+  destruct (p_fetch arr (vint i) false); cbn; exact P.
+Qed.
+
+(* ---- array literal ---- *)
+Lemma scope_array cols a es : scope c cols (EArray a es) = forallb (scope c cols) es.
+Proof. reflexivity. Qed.
+
+Lemma ev_list_ok cols ctx es es' t : ctx_ok ctx cols ->
+  Forall sound_at es -> forallb (scope c cols) es = true ->
+  Forall2 (fun x x' => exists t, visit c cols x None = (t, x', None)) es es' ->
+  forall s k, (forall vs s', Forall (fun v => vwf v) vs -> res_ok t (k vs s')) ->
+  res_ok t (ev_list fe cfg env ctx es' s k).
+Proof.
+  intros Hc HF Hs H2. induction H2 as [|x x' r r' [tx Ex] _ IH]; intros s k Hk.
+  - cbn. apply Hk. constructor.
+  - inversion HF; subst. cbn [forallb] in Hs. apply andb_prop in Hs. destruct Hs as [Hsx Hsr].
+    cbn [ev_list]. eapply res_bind; [match goal with HS : sound_at x |- _ => exact (HS _ _ _ Ex Hsx ctx Hc s) end|].
+    intros v s1 Hv. apply IH; auto. intros vs s' Hvs. apply Hk. constructor; [eapply has_ty_wf; exact Hv|exact Hvs].
+Qed.
+
+Lemma sound_array a es : Forall sound_at es -> sound_at (EArray a es).
+Proof.
+  intros HF cols t e' H Hs ctx Hc s. rewrite visit_array in H.
+  destruct (vlist c cols es None) as [es' st1] eqn:El. inversion H; subst.
+  rewrite scope_array in Hs. cbn [settle set_ann]. rewrite sv_array.
+  eapply ev_list_ok; eauto using vlist_inv. intros vs s' Hvs. apply res_alloc. intros s2. cbn.
+  apply ty_arr. eapply Forall_impl; [|exact Hvs]. intros v Hv. apply has_ty_iface. exact Hv.
+Qed.
+
+(* ---- map literal ---- *)
+Definition sc_pairs (cols : list ty) : list expr -> bool :=
+  fix spairs (ps : list expr) {struct ps} : bool :=
+  match ps with
+  | [] => true
+  | EPair _ k v :: r => scope c cols k && scope c cols v && s_str (tyof c cols k) && spairs r
+  | _ :: _ => false
+  end.
+
+Lemma sc_pairs_cons cols x r :
+  sc_pairs cols (x :: r) =
+  match x with
+  | EPair _ k v => scope c cols k && scope c cols v && s_str (tyof c cols k) && sc_pairs cols r
+  | _ => false
+  end.
+Proof. destruct x; reflexivity. Qed.
+
+Lemma scope_map cols a ps : scope c cols (Ast.EMap a ps) = sc_pairs cols ps.
+Proof. reflexivity. Qed.
+
+Definition pair_sound (p : expr) : Prop := forall a k v, p = EPair a k v -> sound_at k /\ sound_at v.
+
+Lemma ev_pairs_ok cols ctx l0 ps ps' t : ctx_ok ctx cols ->
+  Forall pair_sound ps -> sc_pairs cols ps = true ->
+  Forall2 (fun x x' => exists t, visit c cols x None = (t, x', None)) ps ps' ->
+  forall s k, (forall kvs s', Forall (fun p => has_ty (fst p) TString /\ vwf (snd p)) kvs -> res_ok t (k kvs s')) ->
+  res_ok t (ev_pairs fe cfg env ctx l0 ps' s k).
+Proof.
+  intros Hc HF Hs H2. induction H2 as [|x x' r r' [tx Ex] _ IH]; intros s k Hk.
+  - cbn. apply Hk. constructor.
+  - inversion HF as [|? ? Hp HFr]; subst. rewrite sc_pairs_cons in Hs. destruct x; try discriminate.
+    apply andb_prop in Hs. destruct Hs as [Hs Hsr]. apply andb_prop in Hs. destruct Hs as [Hs Hstr].
+    apply andb_prop in Hs. destruct Hs as [Hsk Hsv].
+    destruct (Hp _ _ _ eq_refl) as [Sk Sv]. cbn [visit] in Ex.
+    destruct (visit c cols x1 None) as [[tk k'] st1] eqn:Ek. destruct (visit c cols x2 st1) as [[tv v'] st2] eqn:Ev.
+    inversion Ex; subst. pose proof (visit_none _ _ _ _ _ _ Ev). subst st1.
+    unfold tyof in Hstr. rewrite Ek in Hstr. cbn [fst] in Hstr. apply s_str_inv in Hstr. subst tk.
+    cbn [settle set_ann ev_pairs].
+    eapply res_bind; [exact (Sk _ _ _ Ek Hsk ctx Hc s)|]. intros vk s1 Hvk.
+    eapply res_bind; [exact (Sv _ _ _ Ev Hsv ctx Hc s1)|]. intros vv s2 Hvv.
+    apply IH; auto. intros kvs s' Hkvs. apply Hk. constructor; [|exact Hkvs]. cbn. split; [exact Hvk|eapply has_ty_wf; exact Hvv].
+Qed.
+
+Lemma sound_map a ps : Forall pair_sound ps -> sound_at (Ast.EMap a ps).
+Proof.
+  intros HF cols t e' H Hs ctx Hc s. rewrite visit_map in H.
+  destruct (vlist c cols ps None) as [ps' st1] eqn:El. inversion H; subst.
+  rewrite scope_map in Hs. cbn [settle set_ann]. rewrite sv_map.
+  eapply ev_pairs_ok; eauto using vlist_inv. intros kvs s' Hkvs.
+  destruct (keys_as_str_ok te ftab kvs Hkvs) as (skvs & -> & Hsk). cbn [lift].
+  apply res_alloc. intros s2. cbn. apply ty_map_lit. exact Hsk.
+Qed.
+
+(* ---- the builtins with a closure ---- *)
+Section LoopLemmas.
+Variable body : Z -> rstate -> result.
+Variable l : loc.
+
+Lemma all_loop_ok : (forall i s, res_ok TBool (body i s)) -> forall n i s, res_ok TBool (all_loop body l n i s).
+Proof.
+  intros Hb. induction n as [|n IH]; intros i s; cbn [all_loop]; [apply ty_bool|].
+  eapply res_bind; [apply Hb|]. intros v s1 Hv. destruct (inv_bool _ _ _ Hv) as [b ->]. cbn.
+  destruct b; [apply IH|apply ty_bool].
+Qed.
+
+Lemma none_loop_ok : (forall i s, res_ok TBool (body i s)) -> forall n i s, res_ok TBool (none_loop body l n i s).
+Proof.
+  intros Hb. induction n as [|n IH]; intros i s; cbn [none_loop]; [apply ty_bool|].
+  eapply res_bind; [apply Hb|]. intros v s1 Hv. destruct (inv_bool _ _ _ Hv) as [b ->]. cbn.
+  destruct b; [apply ty_bool|apply IH].
+Qed.
+
+Lemma any_loop_ok : (forall i s, res_ok TBool (body i s)) -> forall n i s, res_ok TBool (any_loop body l n i s).
+Proof.
+  intros Hb. induction n as [|n IH]; intros i s; cbn [any_loop]; [apply ty_bool|].
+  eapply res_bind; [apply Hb|]. intros v s1 Hv. destruct (inv_bool _ _ _ Hv) as [b ->]. cbn.
+  destruct b; [apply ty_bool|apply IH].
+Qed.
+
+Lemma count_loop_ok t k : (forall i s, res_ok TBool (body i s)) -> (forall cnt s, res_ok t (k cnt s)) ->
+  forall n i cnt s, res_ok t (count_loop body l n i cnt s k).
+Proof.
+  intros Hb Hk. induction n as [|n IH]; intros i cnt s; cbn [count_loop]; [apply Hk|].
+  eapply res_bind; [apply Hb|]. intros v s1 Hv. destruct (inv_bool _ _ _ Hv) as [b ->]. cbn. apply IH.
+Qed.
+
+Lemma filter_loop_ok t el elem k : (forall i s, res_ok TBool (body i s)) ->
+  (forall i, out_ok (fun x => has_ty x el) (elem i)) ->
+  (forall xs s, Forall (fun x => has_ty x el) xs -> res_ok t (k xs s)) ->
+  forall n i acc s, Forall (fun x => has_ty x el) acc -> res_ok t (filter_loop body l elem n i acc s k).
+Proof.
+  intros Hb He Hk. induction n as [|n IH]; intros i acc s Hacc; cbn [filter_loop].
+  - apply Hk. apply Forall_rev. exact Hacc.
+  - eapply res_bind; [apply Hb|]. intros v s1 Hv. destruct (inv_bool _ _ _ Hv) as [b ->]. cbn [as_bool lift].
+    destruct b; [|apply IH; exact Hacc].
+    eapply res_lift; [apply He|]. intros x Hx. apply IH. constructor; assumption.
+Qed.
+
+Lemma map_loop_ok t tb k : (forall i s, res_ok tb (body i s)) ->
+  (forall xs s, Forall (fun x => has_ty x tb) xs -> res_ok t (k xs s)) ->
+  forall n i acc s, Forall (fun x => has_ty x tb) acc -> res_ok t (map_loop body n i acc s k).
+Proof.
+  intros Hb Hk. induction n as [|n IH]; intros i acc s Hacc; cbn [map_loop].
+  - apply Hk. apply Forall_rev. exact Hacc.
+  - eapply res_bind; [apply Hb|]. intros v s1 Hv. apply IH. constructor; assumption.
+Qed.
+End LoopLemmas.
+
+Lemma loop_inv cols a b x ac body t e' : is_loop_builtin b = true ->
+  visit c cols (EBuiltin a b [x; EClosure ac body]) None = (t, e', None) ->
+  scope c cols (EBuiltin a b [x; EClosure ac body]) = true ->
+  exists el x' tb body' an acl,
+    visit c cols x None = (TSlice el, x', None) /\ visit c (TSlice el :: cols) body None = (tb, body', None) /\
+    e' = EBuiltin an b [x'; EClosure acl body'] /\ aloc an = aloc a /\
+    scope c cols x = true /\ scope c (TSlice el :: cols) body = true /\ sc_closure b el tb = true /\
+    closure_rule b (TSlice el) (TFunc [TIface] false [if is_nil_ty tb then TIface else tb]) = inl t.
+Proof.
+  intros Hb H Hs.
+  destruct b; try discriminate Hb; cbn [visit] in H;
+  (destruct (visit c cols x None) as [[tx x'] st1] eqn:Ex;
+   cbn [scope] in Hs; unfold tyof in Hs; rewrite Ex in Hs; cbn [fst] in Hs;
+   apply andb_prop in Hs; destruct Hs as [Hsx Hs]; destruct tx; try discriminate Hs;
+   cbn [is_array dk dereference kind_of_ty negb] in H;
+   destruct (visit c (TSlice tx :: cols) body st1) as [[tb body'] st2] eqn:Eb;
+   match type of H with context [emit ?l ?r ?st] => destruct (emit l r st) as [t3 st3] eqn:Ee end;
+   inversion H; subst; destruct (emit_none _ _ _ _ Ee) as [-> Eru];
+   pose proof (visit_none _ _ _ _ _ _ Eb); subst st1;
+   rewrite Eb in Hs; cbn [fst] in Hs; apply andb_prop in Hs; destruct Hs as [Hsb Hsc];
+   do 6 eexists; repeat split; eauto).
+Qed.
+
+Lemma sound_loop a b x ac body : is_loop_builtin b = true -> sound_at x -> sound_at body ->
+  sound_at (EBuiltin a b [x; EClosure ac body]).
+Proof.
+  intros Hb IHx IHb cols t e' H Hs ctx Hc s.
+  destruct (loop_inv _ _ _ _ _ _ _ _ Hb H Hs) as (el & x' & tb & body' & an & acl & Ex & Eb & -> & Ean & Hsx & Hsb & Hsc & Eru).
+  rewrite sv_loop by exact Hb. eapply res_bind; [exact (IHx _ _ _ Ex Hsx ctx Hc s)|]. intros v s1 Hv.
+  destruct (length_ok te ftab v (TSlice el) eq_refl Hv) as [n ->]. cbn [lift].
+  assert (Hbody : forall i s', res_ok tb (ev ((v, i) :: ctx) (EClosure acl body') s')).
+  { intros i s'. rewrite sv_closure. apply (IHb _ _ _ Eb Hsb). constructor; [|exact Hc]. split; [eauto|exact Hv]. }
+  assert (Helem : forall i, out_ok (fun r => has_ty r el) (p_fetch v (vint i) false)).
+  { intros i. exact (fetch_slice te ftab v (vint i) el KInt false Hv (ty_vint _ _ i)). }
+  unfold closure_rule in Eru. cbn [closure_out is_interface dk dereference kind_of_ty] in Eru.
+  destruct b; try discriminate Hb; cbn [sc_closure] in Hsc; cbn [builtin_body].
+  - apply s_bool_inv in Hsc. subst tb. cbn in Eru. inversion Eru; subst t. apply all_loop_ok. exact Hbody.
+  - apply s_bool_inv in Hsc. subst tb. cbn in Eru. inversion Eru; subst t. apply none_loop_ok. exact Hbody.
+  - apply s_bool_inv in Hsc. subst tb. cbn in Eru. inversion Eru; subst t. apply any_loop_ok. exact Hbody.
+  - apply s_bool_inv in Hsc. subst tb. cbn in Eru. inversion Eru; subst t. apply count_loop_ok; [exact Hbody|].
+    intros cnt s2.
+    pose proof (equal_pair te ftab (vint cnt) (vint 1) (TNum KInt) (TNum KInt) eq_refl (ty_vint _ _ cnt) (ty_vint _ _ 1%Z)) as P.
+    destruct (p_equal (vint cnt) (vint 1)) as [r|er]; cbn; [|exact P]. destruct P as [b ->]. apply ty_bool.
+  - apply andb_prop in Hsc. destruct Hsc as [H1 H2]. apply s_bool_inv in H1. apply s_iface_inv in H2. subst tb el.
+    cbn in Eru. inversion Eru; subst t.
+    eapply filter_loop_ok with (el := TIface); [exact Hbody|exact Helem| |constructor].
+    intros xs s2 Hxs. apply res_alloc. intros s3. cbn. apply ty_arr. exact Hxs.
+  - assert (t = TSlice TIface) as ->.
+    { apply orb_prop in Hsc. destruct Hsc as [Hsc|Hsc].
+      - apply s_iface_inv in Hsc. subst tb. cbn in Eru. inversion Eru. reflexivity.
+      - rewrite Hsc in Eru. inversion Eru. reflexivity. }
+    eapply map_loop_ok with (tb := tb); [exact Hbody| |constructor].
+    intros xs s2 Hxs. apply res_alloc. intros s3. cbn. apply ty_arr.
+    eapply Forall_impl; [|exact Hxs]. intros r Hr. apply has_ty_iface. eapply has_ty_wf; exact Hr.
+  - apply s_bool_inv in Hsc. subst tb. cbn in Eru. inversion Eru; subst t. apply count_loop_ok; [exact Hbody|].
+    intros cnt s2. cbn. apply ty_vint.
 Qed.
